@@ -772,6 +772,16 @@ theorem K_stopNext (p : Bool) (g0 : G2) (s : Sess) (h : K p g0 s) : K p g0 (stop
   all_goals (try dsimp only)
   all_goals first | exact h | exact (by c2_peel : Pres p g0 s _) h
 
+theorem peel_setLastChecked {p : Bool} {g0 : G2} {s x : Sess} (n : Int) (hp : Pres p g0 s x) : Pres p g0 s (x.setLastChecked n) :=
+  hp.trans ((Ext.of_eq (s := x) rfl rfl rfl rfl).pres p g0)
+macro_rules | `(tactic| c2_step) => `(tactic| apply peel_setLastChecked)
+
+theorem pres_checkResetTime (p : Bool) (g0 : G2) (s : Sess) (now : Int) : Pres p g0 s (checkResetTime s now) := by
+  unfold checkResetTime
+  repeat' split
+  all_goals (try dsimp only)
+  all_goals c2_peel
+
 theorem K_stepCore (p : Bool) (g0 : G2) (s : Sess) (e : Ev) (h : K p g0 s) : K p g0 (stepCore s e).1 := by
   obtain ⟨hS, hD, hI, hC⟩ := K_mutual p g0 (fuelOf s)
   unfold stepCore
@@ -817,5 +827,6 @@ theorem K_stepCore (p : Bool) (g0 : G2) (s : Sess) (e : Ev) (h : K p g0 s) : K p
     · exact pres_sendQueued p g0 _ h1
     · exact K_setToSend_nil h1
   | sessionTime r sm => exact hC s r sm h
+  | resetTime now => exact pres_checkResetTime p g0 s now h
 
 end Qfx.Sess.C02
